@@ -173,7 +173,12 @@ def r02_3(ctx):
 
 
 def rules(ctx):
-    return [r02_1, r02_2, r02_3, c01.r01_1, c11.r11_3]
+    from ..engine import only
+    from . import c03
+    return [r02_1, r02_2, r02_3,
+            only(c01.r01_1, lambda k: k.startswith(("component predicate", "the Fragment name")), "which hosts are components (Fragment / KeepAlive / elements receive child lists)"),
+            only(c03.r03_1, lambda k: k.startswith(("the single-child arm", "several children", "no children", "any other single child")), "child-list arms of the dispatch (spread children are never a 'single child')"),
+            c11.r11_3]
 
 
 EXPLANATION = (
